@@ -151,11 +151,18 @@ Section Inv.
     iv_next : tg s ((sh_count s + 1) mod 3) = sh_count s - 2 \/ tg s ((sh_count s + 1) mod 3) = sh_count s + 1;
     iv_rot_trip : tg s ((sh_count s + 1) mod 3) = sh_count s + 1 -> tripped gh (sh_count s);
     iv_trip : forall g, c_n0 c <= g < sh_count s -> tripped gh g;
-    iv_chain : forall p, 0 <= p < 3 -> c_n0 c <= tg s p -> chain (base (tg s p)) (g_claims gh (tg s p)) (toff s p);
+    (* the claims of every generation are laid back to back (also of generations no tail carries any more) *)
+    iv_chain_all : forall g, c_n0 c <= g ->
+        exists hi, chain (base g) (g_claims gh g) hi /\ forall p, 0 <= p < 3 -> tg s p = g -> toff s p = hi;
     iv_empty : forall g, (g < c_n0 c \/ (sh_count s < g /\ forall p, 0 <= p < 3 -> tg s p <> g)) ->
         g_claims gh g = [] /\ g_cleaned gh g = false;
     iv_cleaned : forall p, 0 <= p < 3 -> g_cleaned gh (tg s p) = true -> TL c <= toff s p
   }.
+
+  Lemma iv_chain s gh : TailInv s gh ->
+    forall p, 0 <= p < 3 -> c_n0 c <= tg s p -> chain (base (tg s p)) (g_claims gh (tg s p)) (toff s p).
+  Proof. intros A p Hp Hn0. destruct (iv_chain_all s gh A (tg s p) Hn0) as (hi & Hc & Hhi).
+    rewrite (Hhi p Hp eq_refl). exact Hc. Qed.
 
   Record AppInv (s : shared) (gh : ghost) (P : nat -> option plocal) : Prop := {
     iv_A : TailInv s gh;
